@@ -13,6 +13,8 @@ From V.gen Require Consts.
 From V.C03 Require Import Model Msg Proofs UviProofs LsProofs WebRtc WebRtcProofs Fallback.
 From V.C03 Require Import MsgRef MsgProofs MsgInv Chan Dir SimD SimL SimSys BytesThm LazyThm.
 From V.C03 Require Import Work Work2 Live Timed TimedProofs Survivor NegOps LazyBytes Compose Sub SubProofs.
+From V.C03 Require Import Peer PeerTie RefDiff.
+From V.C03 Require Glue.
 Import ListNotations.
 Open Scope N_scope.
 
@@ -607,6 +609,196 @@ Theorem C03_sub_oracle_accepts_model :
   forall case : list N, ok_sub case (run_sub case) = true.
 Proof. exact sub_oracle_accepts_model. Qed.
 Print Assumptions C03_sub_oracle_accepts_model.
+
+(* ---- layer 10: litep2p's futures against ANY peer that holds a legal multistream-select
+   conversation - the reference implementation (rust-libp2p's multistream-select) in particular -,
+   not only against the model's own other half (Peer.v, PeerTie.v). The peer is the environment:
+   its bytes are the header frame, frames satisfying the inductive predicates LegalL (a listener's
+   answers) / LegalD (a dialer's proposals) and, once a name is agreed, arbitrary application bytes;
+   they arrive ONE BYTE AT A TIME at arbitrary moments between the polls of the litep2p task (evs),
+   under any read / write scripts of the carrier; the peer's end closes after its last byte.
+
+   The dialer task (V1, names valid and fitting a frame): a reported success carries the exact
+   index of the first name the peer supports and that is the name the peer confirmed; at every
+   moment the application bytes already read ++ those in the pipe ++ those still to come are exactly
+   the peer's payload (none consumed by the negotiation, none lost); when done: clean EOF,
+   everything received, and what the task put on the wire is the header, its proposals up to that
+   name and its own payload, nothing else. A reported failure means the peer supports none. *)
+Theorem C03_peer_dialer_vs_any_legal_listener :
+  forall (ds : list name) (S : name -> bool) (rs : list msg) (r : option name)
+         (pay dpay : bytes) (rsc wsc : list N) (evs : list eev),
+    Forall wfn ds -> LegalL S ds rs r ->
+    let s := erun evs (einit (d_task ds dpay) rsc wsc (FR (MHeader :: rs) ++ opt_pay r pay)) in
+    (forall i, t_res (e_t s) = (0, i) ->
+       exists p, first_supported ds S i p /\ r = Some p /\
+         t_read (e_t s) ++ p_buf (e_in s) ++ e_rem s = pay /\
+         (t_done (e_t s) = true ->
+            t_end (e_t s) = 0 /\ t_got (e_t s) = pay /\ p_buf (e_in s) = [] /\ e_rem s = [] /\
+            p_closed (e_out s) = true /\
+            p_buf (e_out s) = FR (MHeader :: map MProto (firstn (N.to_nat i + 1) ds)) ++ dpay)) /\
+    (forall code i, t_res (e_t s) = (code, i) -> code <> 0 -> code <> 99 ->
+       r = None /\ Forall (unsupS S) ds).
+Proof. exact dialer_vs_any_legal_listener. Qed.
+Print Assumptions C03_peer_dialer_vs_any_legal_listener.
+
+(* The listener task, supporting ls, against any legal dialer (ps = its proposals; `silent` = the
+   peer closes without a word, as a dialer with no name does): a reported success carries the index
+   of the listener's first entry equal to the accepted proposal, which is the peer's last one, the
+   earlier ones being unsupported; transparency as above; its wire is the header, one `na` per
+   rejected proposal, the confirmation, then its payload. A reported failure means nothing was
+   agreed. *)
+Theorem C03_peer_listener_vs_any_legal_dialer :
+  forall (ls ps : list name) (r : option name) (silent : bool)
+         (pay lpay : bytes) (rsc wsc : list N) (evs : list eev),
+    Forall wfn ps -> LegalD (supported ls) ps r -> (silent = true -> ps = []) ->
+    let s := erun evs (einit (l_task ls lpay) rsc wsc
+                         (FR (if silent then [] else MHeader :: map MProto ps) ++ opt_pay r pay)) in
+    (forall j, t_res (e_t s) = (0, j) ->
+       exists n, accepted ls ps j n /\ r = Some n /\
+         t_read (e_t s) ++ p_buf (e_in s) ++ e_rem s = pay /\
+         (t_done (e_t s) = true ->
+            t_end (e_t s) = 0 /\ t_got (e_t s) = pay /\ p_buf (e_in s) = [] /\ e_rem s = [] /\
+            p_closed (e_out s) = true /\
+            exists pre, ps = pre ++ [n] /\
+              p_buf (e_out s) = FR (MHeader :: nas pre ++ [MProto n]) ++ lpay)) /\
+    (forall code j, t_res (e_t s) = (code, j) -> code <> 0 -> code <> 99 -> r = None).
+Proof. exact listener_vs_any_legal_dialer. Qed.
+Print Assumptions C03_peer_listener_vs_any_legal_dialer.
+
+(* Both tasks terminate against ANY byte stream, legal or not, that the peer finishes and closes:
+   K rounds of events, each containing a poll, a delivery and a close attempt, suffice as soon as K
+   exceeds the initial potential (Live.v's potential plus the bytes still to be delivered). *)
+Theorem C03_peer_dialer_terminates :
+  forall (ds : list name) (dpay : bytes) (rsc wsc : list N) (stream : bytes) (K : nat) (evs : list eev),
+    let s0 := einit (d_task ds dpay) rsc wsc stream in
+    fairE K evs -> PhiD s0 < N.of_nat K -> t_done (e_t (erun evs s0)) = true.
+Proof. exact dialer_vs_any_peer_terminates. Qed.
+Print Assumptions C03_peer_dialer_terminates.
+
+Theorem C03_peer_listener_terminates :
+  forall (ls : list name) (lpay : bytes) (rsc wsc : list N) (stream : bytes) (K : nat) (evs : list eev),
+    let s0 := einit (l_task ls lpay) rsc wsc stream in
+    fairE K evs -> PhiL s0 < N.of_nat K -> t_done (e_t (erun evs s0)) = true.
+Proof. exact listener_vs_any_peer_terminates. Qed.
+Print Assumptions C03_peer_listener_terminates.
+
+(* delivering k bytes at once is k single-byte deliveries: every grouping is covered *)
+Theorem C03_peer_deliveries_are_bytes :
+  forall (k : nat) (s : esys), (k <= length (e_rem s))%nat ->
+    erun (repeat EvByte k) s = push_k s k.
+Proof. exact push_k_bytes. Qed.
+Print Assumptions C03_peer_deliveries_are_bytes.
+
+(* what litep2p's tasks put on the wire when they succeed is itself a legal conversation with the
+   same verdict: any peer that is correct on legal conversations settles on the same name *)
+Theorem C03_peer_own_wire_legal :
+  (forall ds S i p, first_supported ds S i p -> LegalD S (firstn (N.to_nat i + 1) ds) (Some p)) /\
+  (forall ls ps j n, accepted ls ps j n ->
+     exists pre, ps = pre ++ [n] /\ LegalL (supported ls) ps (nas pre ++ [MProto n]) (Some n)).
+Proof. split; [exact first_supported_LegalD | exact accepted_LegalL]. Qed.
+Print Assumptions C03_peer_own_wire_legal.
+
+(* TIE to the differential stream against the reference implementation (mode 9 of Glue.v). The
+   trace oracle ok9 demands that the bytes each end put on the wire equal Glue.legal_dialer_wire /
+   Glue.legal_listener_wire of the case; these ARE legal conversations for the case's two lists,
+   with the verdict of the property text. *)
+Theorem C03_peer_oracle_wire_legal :
+  forall c : ncase, c_ds c <> [] ->
+    let S := supported (c_ls c) in
+    let r := agreed S (c_ds c) in
+    r = first_common (c_ds c) (c_ls c) /\
+    exists ps, LegalD S ps r /\ (exists rest, c_ds c = ps ++ rest) /\
+      LegalL S (c_ds c) (resp S (c_ds c)) r /\
+      Glue.legal_dialer_wire c = FR (MHeader :: map MProto ps) ++ opt_pay r (c_dpay c) /\
+      Glue.legal_listener_wire c = FR (MHeader :: resp S (c_ds c)) ++ opt_pay r (c_lpay c).
+Proof. exact oracle_wire_legal. Qed.
+Print Assumptions C03_peer_oracle_wire_legal.
+
+(* Hence: fed with the bytes that a trace accepted by ok9 shows the REFERENCE dialer to have sent,
+   litep2p's listener task reports - under every delivery order, chunking and Pending injection -
+   the dialer's first supported name at the index of its first matching entry, and hands over
+   exactly the dialer's payload; symmetrically for litep2p's dialer task and the reference
+   listener's bytes (index as computed by the oracle's find_idx). *)
+Theorem C03_peer_reference_dialer_wire_vs_listener :
+  forall (c : ncase) (rsc wsc : list N) (evs : list eev), c_ds c <> [] -> Forall wfn (c_ds c) ->
+    let s := erun evs (einit (l_task (c_ls c) (c_lpay c)) rsc wsc (Glue.legal_dialer_wire c)) in
+    (forall j, t_res (e_t s) = (0, j) ->
+       exists n, first_common (c_ds c) (c_ls c) = Some n /\ lidx 0 (c_ls c) n = Some j /\
+         t_read (e_t s) ++ p_buf (e_in s) ++ e_rem s = c_dpay c /\
+         (t_done (e_t s) = true -> t_end (e_t s) = 0 /\ t_got (e_t s) = c_dpay c /\
+            p_buf (e_in s) = [] /\ e_rem s = [])) /\
+    (forall code j, t_res (e_t s) = (code, j) -> code <> 0 -> code <> 99 ->
+       first_common (c_ds c) (c_ls c) = None).
+Proof. exact reference_dialer_wire_vs_listener. Qed.
+Print Assumptions C03_peer_reference_dialer_wire_vs_listener.
+
+Theorem C03_peer_reference_listener_wire_vs_dialer :
+  forall (c : ncase) (rsc wsc : list N) (evs : list eev), c_ds c <> [] -> Forall wfn (c_ds c) ->
+    let s := erun evs (einit (d_task (c_ds c) (c_dpay c)) rsc wsc (Glue.legal_listener_wire c)) in
+    (forall i, t_res (e_t s) = (0, i) ->
+       exists p, first_common (c_ds c) (c_ls c) = Some p /\
+         Glue.find_idx (Glue.supported_b (c_ls c)) (c_ds c) 0 = Some (i, p) /\
+         t_read (e_t s) ++ p_buf (e_in s) ++ e_rem s = c_lpay c /\
+         (t_done (e_t s) = true -> t_end (e_t s) = 0 /\ t_got (e_t s) = c_lpay c /\
+            p_buf (e_in s) = [] /\ e_rem s = [])) /\
+    (forall code i, t_res (e_t s) = (code, i) -> code <> 0 -> code <> 99 ->
+       first_common (c_ds c) (c_ls c) = None).
+Proof. exact reference_listener_wire_vs_dialer. Qed.
+Print Assumptions C03_peer_reference_listener_wire_vs_dialer.
+
+(* Where the reference and litep2p legitimately differ (RefDiff.v), stated explicitly: (1) the
+   reference's dialer accepts the header line any number of times, litep2p's once - the two
+   reactions differ on a SECOND header only, and against every legal listener (invariant RD of
+   Peer.v, which holds along every run of the dialer and its environment) the reference's dialer
+   takes exactly the step litep2p's takes; a legal listener's answers contain no header line. *)
+Theorem C03_ref_header_difference :
+  (forall p hr m, d_react p hr m <> d_react_ref p m -> hr = true /\ m = MHeader) /\
+  (forall ds S m, RD ds S m -> mstep_d_ref m = mstep_d m) /\
+  (forall S ps rs r, LegalL S ps rs r -> ~ In MHeader rs).
+Proof. split; [exact d_react_ref_diff | split; [exact ref_dialer_same_steps | exact legal_answers_no_header]]. Qed.
+Print Assumptions C03_ref_header_difference.
+
+(* (2) the reference's names are text (`String::from_utf8`, otherwise InvalidProtocol), litep2p's
+   are byte strings: the two decoders agree on every name line whose name is valid UTF-8 - the
+   domain of the differential stream -, and every piece of an ASCII payload is text *)
+Theorem C03_ref_name_difference :
+  (forall p, text_name p = true ->
+     decode_line_ref (encode_msg (MProto p)) = decode_msg (encode_msg (MProto p))) /\
+  (forall a b c : bytes, forallb (fun x => x <? 128) (a ++ b ++ c) = true -> text_name b = true).
+Proof.
+  split; [exact ref_decode_same_on_text|].
+  intros a b c H. apply ascii_is_text. exact (ascii_piece a b c H).
+Qed.
+Print Assumptions C03_ref_name_difference.
+
+(* ---- non-vacuity of layer 10. A peer that supports only "/b" against the dialer of ["/a"; "/b"]:
+   it answers header, na, confirmation of "/b" and sends "hi"; its bytes arrive one at a time with
+   polls in between (the carrier also injects a Pending and one-byte reads), then the close. The
+   dialer ends on index 1 with "hi" received and a clean EOF; its wire is the legal dialer
+   conversation followed by its payload. And a dialer peer proposing "/x", "/b" to the listener of
+   ["/b"; "/c"], everything delivered before the first poll. *)
+Example C03_peer_example :
+  let a := [47; 97] in let b := [47; 98] in let x := [47; 120] in
+  let S := fun p : name => name_eqb p b in
+  let rounds := flat_map (fun _ : nat => [EvByte; EvPoll]) (seq 0 40) ++ [EvClose; EvPoll; EvPoll] in
+  let s := erun rounds (einit (d_task [a; b] [1; 2; 3]) [1; 0; 1; 1] [2; 0]
+                          (FR (MHeader :: resp S [a; b]) ++ opt_pay (agreed S [a; b]) [104; 105])) in
+  LegalL S [a; b] [MNa; MProto b] (Some b) /\
+  t_res (e_t s) = (0, 1) /\ t_done (e_t s) = true /\ t_got (e_t s) = [104; 105] /\ t_end (e_t s) = 0 /\
+  p_buf (e_out s) = FR [MHeader; MProto a; MProto b] ++ [1; 2; 3] /\
+  let evs2 := repeat EvByte 60 ++ [EvClose; EvPoll; EvPoll; EvPoll] in
+  let s2 := erun evs2 (einit (l_task [b; [47; 99]] [9]) [] []
+                          (FR (MHeader :: map MProto [x; b]) ++ [7; 7])) in
+  LegalD (supported [b; [47; 99]]) [x; b] (Some b) /\
+  t_res (e_t s2) = (0, 0) /\ t_done (e_t s2) = true /\ t_got (e_t s2) = [7; 7] /\
+  p_buf (e_out s2) = FR [MHeader; MNa; MProto b] ++ [9].
+Proof.
+  cbv zeta. split; [apply LL_na; [reflexivity | apply LL_ok; reflexivity]|].
+  split; [vm_compute; reflexivity|]. split; [vm_compute; reflexivity|]. split; [vm_compute; reflexivity|].
+  split; [vm_compute; reflexivity|]. split; [vm_compute; reflexivity|].
+  split; [apply LD_rej; [reflexivity | apply LD_acc; reflexivity]|].
+  split; [vm_compute; reflexivity|]. split; [vm_compute; reflexivity|]. split; vm_compute; reflexivity.
+Qed.
 
 (* ---- non-vacuity of layer 7: the dialer's timer (1 tick) fires while the listener's confirmation
    is in flight (the carrier injects one Pending): the listener has accepted "/a" (index 0), the
